@@ -54,6 +54,21 @@ func httpEval(op string, a []string) string {
 	if op == "seq" {
 		return httpSeqEval(a)
 	}
+	if op == "listen" {
+		// http listen <address> <key|-> => reject | <host> <port> <local> <started> <loopback>
+		key := ""
+		if a[1] != "-" {
+			key = string(decBytes(a[1]))
+		}
+		host, port, local, perr, started, loopback := fzf.VerifListenStart(string(decBytes(a[0])), key)
+		if perr {
+			return "reject"
+		}
+		if host == "" {
+			host = "-"
+		}
+		return fmt.Sprintf("%s %d %d %d %d", encStr(host), port, b2i(local), b2i(started), b2i(loopback))
+	}
 	if op != "req" {
 		panic("bad op")
 	}
@@ -221,6 +236,23 @@ func genRequest(r *rand.Rand, bodies []string, key string) ([]byte, string) {
 func httpGen(r *rand.Rand, count int, emit func(op string, args ...string)) {
 	bodies := []string{"change-query(foo)", "up+down", "first", "reload(seq 10)", "change-query(a)+toggle-all", "bogus-action", "", "execute(echo x)",
 		"put(x)", "abort", "change-query:hello world", "up\r\n", "\r\nup", "select-all+accept", "change-prompt[x> ]"}
+	if genSeed%1000 == 0 || count < 1000 {
+		// every form of a --listen address, with and without an API key: a listener without a key is local
+		hosts := []string{"", "localhost", "127.0.0.1", "0.0.0.0", "LOCALHOST", "127.0.0.2", "nosuchhost.invalid", " ", "localhost ", "::1", "[::1]", "::"}
+		ports := []string{"0", "0", "00", "x", "", "65536", "-1", "99999999999999999999", "0 ", "0x10"}
+		for _, h := range hosts {
+			for _, p := range ports {
+				for _, k := range []string{"-", encStr("k")} {
+					emit("listen", encStr(h+":"+p), k)
+				}
+			}
+		}
+		for _, p := range ports {
+			emit("listen", encStr(p), "-")
+		}
+		emit("listen", encStr(""), "-")
+		emit("listen", encStr("a:b:0"), "-")
+	}
 	for i := 0; i < count; i++ {
 		key := "-"
 		if r.Intn(2) == 0 {
